@@ -17,6 +17,10 @@ VERUS = {
     # shift even and <= 2*BITS-2, shifted buffer exactly 2n words with top word >= B/4, un-normalisation of root and remainder:
     #   s*s <= value < (s+1)*(s+1);  !root_only ==> remainder == value - s*s
     'int_root_ops': {'file': 'int_root_ops.rs', 'w32': True, 'rlimit': 40},
+    # integer/src/log.rs `mod repr` log_dword: base^e <= target < base^(e+1), ret.1 == base^e, for an ARBITRARY f32 estimate
+    # (rule D10b; only "base.pow(est) is representable" is trusted); the run-time assert!(est_pow <= target) is a possible
+    # panic (rule D4a #[assert_guard]), the correction loop is proved with termination
+    'int_log': {'file': 'int_log.rs', 'w32': True},
     # rational/src/cmp.rs with_float::repr_cmp_fbig (behind NumOrd / AbsOrd of RBig / Relaxed against FBig<_, B>, any base B >= 2):
     #   infinite rhs: Less (+inf or ABS) / Greater (-inf);  otherwise ret == ordering of n/d against s * B^e (of the magnitudes if
     #   ABS), cross-multiplied: e >= 0: cmp(n, s*d*B^e);  e < 0: cmp(n*B^-e, s*d).  The f32 log2 filter is ASSUMED sound.
@@ -25,6 +29,10 @@ VERUS = {
     # (instantiated for f32 and f64): ret == ordering of the exact real values, None for NaN; the step-3 bound is proved from
     # "bit_len > MAX_EXP ==> x >= 2^MAX_EXP > every finite float" (bit_len == MAX_EXP is NOT enough)
     'num_order_int_float': {'file': 'num_order_int_float.rs'},
+    # float/src/third_party/num_order.rs `impl NumHash for Repr<B>` (any base B >= 2): the i128 fed to the hasher h satisfies
+    #   |h| < M127, sign(h) = sign(significand) (or h == 0), e >= 0: |h| == (|s| * B^e) mod M127;  e < 0: |h| * B^-e == |s| (mod M127)
+    # i.e. num-order's hash of the rational s * B^e; base-2 shortcut (exponent mod 127) proved from 2^127 == 1 (mod M127)
+    'num_hash_float': {'file': 'num_hash_float.rs'},
 }
 
 KANI = {
@@ -41,7 +49,9 @@ KANI['gcdo_root'] = {
     'package': 'dashu-int', 'target': 'integer/src/root.rs', 'file': 'gcdo_root.rs',
     'harnesses': {
         'vk_gcdo_root_sqrt_rem_4w': {'kind': 'bounded', 'bound': '4-word input (sqrt_rem_42), palette words with 2 symbolic bits'},
-        'vk_gcdo_root_sqrt_rem_6w': {'kind': 'bounded', 'bound': '6-word input (one recursion level, odd root length), palette words with 2 symbolic bits'},
+        'vk_gcdo_root_sqrt_rem_6w_qtop': {'kind': 'bounded', 'bound': '6-word input, upper four words all ones (q_top region), two palette words'},
+        'vk_gcdo_root_sqrt_rem_6w': {'kind': 'bounded', 'tier': 'thorough',
+                                     'bound': '6-word input (one recursion level, odd root length), palette words with 2 symbolic bits'},
         'vk_gcdo_root_sqrt_rem_8w': {'kind': 'bounded', 'tier': 'thorough',
                                      'bound': '8-word input (one recursion level, even root length), palette words with 2 symbolic bits'},
     },
@@ -51,13 +61,20 @@ KANI['gcdo_numhash'] = {
     'package': 'dashu-float', 'target': 'float/src/third_party/num_order.rs', 'file': 'gcdo_numhash.rs',
     'harnesses': {
         'vk_gcdo_numhash_%s' % n: {'kind': 'bounded', 'bound': 'one concrete (base, significand, exponent) point'}
-        for n in ('b2_e3', 'b2_e127', 'b2_e300', 'b2_em130', 'b10_e2', 'b10_e130', 'b10_em129', 'b16_e127')
+        for n in ('b2_e3', 'b2_e127', 'b2_e300', 'b2_em130', 'b10_e2', 'b10_e130', 'b16_e127')
     },
 }
 
 PROP_UNITS = {
-    'C14': {'verus': ['num_order_ratio_fbig', 'num_order_int_float'],
-            'undecided': ['num_order_int_float ASSUMES (lib/gcdo_numord_stubs.rs, trusted): an abstract model of f32 / f64 (NaN / infinite '
+    'C14': {'verus': ['num_order_ratio_fbig', 'num_order_int_float', 'num_hash_float'],
+            'kani': ['gcdo_numhash'],
+            'undecided': ['num_hash_float ASSUMES (lib/gcdo_numhash_stubs.rs, trusted): num_modular FixedMersenneInt<127, 1> (new / convert / '
+                          'residue / pow / inv / *: arithmetic in Z/(2^127 - 1)), that 2^127 - 1 is prime (inverse of every non-zero element, '
+                          'powers of 0 < b < M non-zero), ModularAbs::absm (Euclidean remainder), `&IBig % i128` (truncated remainder), '
+                          'i128::num_hash of num-order (feeds the number itself for |h| < M127); precondition exponent > isize::MIN '
+                          '(`-self.exponent` / absm overflow: debug panic, release wrap -- FBig with exponent isize::MIN is outside every check); '
+                          'gcdo_numhash is a BOUNDED Kani stand-in on 7 concrete points of the same statement against the REAL num_modular '
+                          '(the negative-exponent branch of non-binary bases, MInt::inv, crashes CBMC and is covered by Verus only)','num_order_int_float ASSUMES (lib/gcdo_numord_stubs.rs, trusted): an abstract model of f32 / f64 (NaN / infinite '
                           'flags, sign bit, decode pair (man, exp) with value == man * 2^exp, |man| < 2^MANTISSA_DIGITS, exp <= MAX_EXP - '
                           'MANTISSA_DIGITS -- decode itself is proved for all bit patterns by the Kani group base_bit) and the documented '
                           'meaning of is_nan / is_infinite / `== 0.0` / MANTISSA_DIGITS / MAX_EXP / Signed::sign / BitTest::bit_len / '
@@ -68,7 +85,7 @@ PROP_UNITS = {
                           'dashu-float Repr accessors, IBig <<= / *= / clone / cmp / abs_cmp, UBig::from_word / pow, Sign * Ordering, '
                           'u64::is_power_of_two ==> w == 2^trailing_zeros (stub contracts); resource precondition |exponent| <= 2^56; '
                           'the forwarding impls (AbsOrd / NumOrd for RBig, Relaxed, FBig and `.reverse()`) are not under contract']},
-    'C12': {'verus': ['int_gcd_small', 'int_gcd_ops', 'int_root_ops'],
+    'C12': {'verus': ['int_gcd_small', 'int_gcd_ops', 'int_root_ops', 'int_log'],
             'kani': ['gcdo_base', 'gcdo_root'],
             'undecided': ['int_gcd_small ASSUMES (lib/gcdo_stubs.rs, trusted): the Word / DoubleWord instances of the primitive '
                           'ExtendedGcd::gcd_ext return g >= 1, g | a, g | b, s*a + t*b == g with |s| <= b, |t| <= a (|t| < a if '
@@ -91,5 +108,10 @@ PROP_UNITS = {
                           'returns value(a) == s^2 + r, r <= 2s for a normalized 2n-word input -- only BOUNDED-checked by the Kani group '
                           'gcdo_root (4/6/8-word inputs, palette words); Repr::into_buffer (normalized words); scratch memory opaque; '
                           'the TypedReprRef::sqrt / sqrt_rem dispatch on `Small` values (primitive SquareRoot impls of dashu-base, Kani '
-                          'group base_root for u8/u16) and nth_root (Newton iteration on UBig) are not under contract']},
+                          'group base_root for u8/u16) and nth_root (Newton iteration on UBig) are not under contract',
+                          'int_log ASSUMES (lib/gcdo_log_stubs.rs, trusted): the f32 estimate of log_dword is small enough for '
+                          '`base.pow(est)` to be representable (otherwise debug builds panic and release builds wrap); DoubleWord::pow, '
+                          'Ordering::is_le / is_ge; the run-time `assert!(est_pow <= target)` is treated as a possible panic (no claim that '
+                          'it never fires); log_word_base / log_large (f32-steered, multi-word) and the power-of-two shortcuts of '
+                          'TypedReprRef::log are not under contract']},
 }
